@@ -159,7 +159,10 @@ impl<'a, P: for<'p> Protocol<'p>> DemoWriter<'a, P> {
         Ok(())
     }
     pub fn write_msg(&mut self, msg: &<P as Protocol<'_>>::Game) -> Result<(), WriteError> {
-        with_packer(&mut self.buf, |p| msg.encode(p)).map_err(|_| WriteError::TooLongNetMsg)?;
+        if with_packer(&mut self.buf, |p| msg.encode(p)).is_err() {
+            self.buf.clear();
+            return Err(WriteError::TooLongNetMsg);
+        }
         self.inner.write_message(self.buf.as_slice())?;
         self.buf.clear();
         Ok(())
